@@ -30,7 +30,7 @@ def symbolize(exe, cls):
 
 
 FLAGS = ["-DRFC6531_FOLLOW_RFC5322", "-DRFC6531_FOLLOW_RFC20", "-DLABELS_ALLOW_UNDERSCORE"]
-VARIANTS = {"-idn": ([], "idn"), "-idnkit": ([], "idnkit"), "-crowd": (["-DSIM_MAXT=321", "-DSIM_NCELL_LOG=14"], "idn2"),
+VARIANTS = {"-idn": ([], "idn"), "-idnkit": ([], "idnkit"), "-crowd": (["-DSIM_MAXT=321", "-DSIM_NCELL_LOG=14"], "idn2"), "-crowd2": (["-DSIM_MAXT=1025", "-DSIM_NCELL_LOG=12"], "idn2"),
             "-extra": (["-DEAV_EXTRA"], "idn2"), "-flags": (FLAGS, "idn2"), "-ndebug": (build.ALT_CONFIG, "idn2"), "-debug": (["-D_DEBUG"], "idn2")}
 
 
@@ -84,6 +84,9 @@ def main(tier, replay=None):
     # "crowd": up to 320 threads (runtime built with a larger thread table and a smaller shadow table)
     exe_c, _ = build.build_sched("-crowd", ["-DSIM_MAXT=321", "-DSIM_NCELL_LOG=14"])
     batches.append(Batch("crowd", exe_c, "C14", "crowd", seed + 8, 160 if q else 10**8, 60 if q else 120, W, extra=extra("crowd")).run())
+    # and up to 1024 threads (tables of 512 or 1000 per-thread slots): few plans, each costs about a second
+    exe_c2, _ = build.build_sched("-crowd2", ["-DSIM_MAXT=1025", "-DSIM_NCELL_LOG=12"])
+    batches.append(Batch("crowd2", exe_c2, "C14", "crowd", seed + 9, 24 if q else 10**8, 90 if q else 120, W, extra=extra("crowd2")).run())
     # the Makefile's own `make debug` configuration (-D_DEBUG: trace code compiled into the library)
     exe_d, _ = build.build_sched("-debug", ["-D_DEBUG"])
     batches.append(Batch("swarm-debug", exe_d, "C14", "swarm", seed + 12, 3000 if q else 10**8, 60 if q else 90, W, extra=extra("swarm-debug")).run())
